@@ -16,6 +16,34 @@ def _mul(a, b):
     return (min(ps), max(ps))
 
 
+_SQ = 10 ** 40
+
+
+def _sqrt_down(q):
+    """a rational below or equal to sqrt(q), within 1e-40 relative of it (40 digits keep the end points short)"""
+    import math
+    q = Fraction(q)
+    n = math.isqrt((q.numerator * _SQ * _SQ) // q.denominator)
+    return Fraction(n, _SQ)
+
+
+def _sqrt_up(q):
+    import math
+    q = Fraction(q)
+    n = math.isqrt(-((-q.numerator * _SQ * _SQ) // q.denominator)) + 1
+    return Fraction(n, _SQ)
+
+
+def _trim(iv):
+    """outward rounding of the end points to 50 digits (keeps the rationals from growing)"""
+    lo, hi = iv
+    if lo.denominator > 10 ** 50:
+        lo = Fraction((lo.numerator * 10 ** 50) // lo.denominator, 10 ** 50)
+    if hi.denominator > 10 ** 50:
+        hi = Fraction(-((-hi.numerator * 10 ** 50) // hi.denominator), 10 ** 50)
+    return (lo, hi)
+
+
 def bounds(term, env):
     memo = {}
 
@@ -23,7 +51,7 @@ def bounds(term, env):
         k = t.get_id()
         if k in memo:
             return memo[k]
-        r = ev1(t)
+        r = _trim(ev1(t))
         memo[k] = r
         return r
 
@@ -50,6 +78,11 @@ def bounds(term, env):
                 raise Unbounded(name)
             if name in ("sin", "cos"):
                 return (Fraction(-1), Fraction(1))
+            if name == "sqrt":
+                a = ev(ch[0])
+                if a[0] < 0:
+                    raise Unbounded("sqrt of an interval reaching below 0")
+                return (_sqrt_down(a[0]), _sqrt_up(a[1]))
             raise Unbounded(name)
         if kind == z3.Z3_OP_ADD:
             lo = hi = Fraction(0)
